@@ -11,7 +11,11 @@
 // Owned guards added by Piotr Kołaczkowski
 
 use std::ops::Drop;
+#[cfg(not(fclones_verif_shuttle))]
 use std::sync::{Arc, Condvar, Mutex};
+// Verification hook: the includer provides scheduler-controlled primitives under this cfg.
+#[cfg(fclones_verif_shuttle)]
+use crate::verif_shim::sync::{Arc, Condvar, Mutex};
 
 /// A counting, blocking, semaphore.
 ///
